@@ -303,6 +303,9 @@ func includeLineNames(line, dir, target string) bool {
 			continue
 		}
 		name := f[0]
+		if k := strings.IndexByte(name, '#'); k > 0 && !strings.HasPrefix(name, "\"") {
+			name = name[:k] // a comment glued to the bare file name
+		}
 		if filepath.Join(dir, name) == target {
 			return true
 		}
